@@ -72,6 +72,7 @@ theorem C02_default_status_from_table (cfg : Cfg) (es : List Ev) (n : Nat) (a : 
         · exact hs n a
       | reqForwarded => simp only [step]; split <;> exact hs n a
       | backHead bs cc nb => simp only [step]; split <;> exact hs n a
+      | backData => simp only [step]; split <;> exact hs n a
       | backBodyEnd => simp only [step]; split <;> exact hs n a
       | backParseError =>
         simp only [step]; split
@@ -225,5 +226,89 @@ example :
     let m : Mux := { streams := [run {} Stream.init [.reqParsed true, .connect (.linked 1)],
                                  run {} Stream.init [.reqParsed true, .connect (.linked 2)]] }
     ((Mux.step {} m (.backendHup 1)).streams.map (·.st)) = [.link, .linked 2] := by decide
+
+/-! ### never a truncated body presented as complete -/
+
+/-- FULL STATEMENT WANTED: a response is completed by the end of the backend
+    connection only when it has neither Content-Length nor chunked coding.
+    PROVED PART: this holds for every run in which every response that announces
+    `Connection: close` is close-delimited (`TameEv`); then a run that ends with
+    "relayed, ended by EOF" has close-delimited framing — in particular a chunked
+    response cut short is never completed (it is demoted to the error phase). -/
+theorem C02_no_truncated_as_complete_partial (cfg : Cfg) (es : List Ev)
+    (htame : ∀ e ∈ es, TameEv e) (bs : BodySize)
+    (h : (run cfg Stream.init es).outcome = some (.relayed true bs)) :
+    bs = .empty :=
+  (kinv_run cfg es Stream.init htame kinv_init).k4 bs h
+
+/-- The excluded point really fails in the model (as it does in the code, finding
+    F24): `Content-Length` + `Connection: close`, the backend closes mid-body,
+    `terminate_close_delimited` marks the short body Terminated and
+    `end_stream_decision` forwards it as a complete response. -/
+theorem C02_no_truncated_as_complete_counterexample :
+    (run {} Stream.init [.reqParsed true, .connect (.linked 1), .reqForwarded,
+        .backHead .length true false, .backEof, .backHup]).outcome
+      = some (.relayed true .length) ∧
+    ¬ TameEv (.backHead .length true false) := by
+  constructor
+  · decide
+  · simp [TameEv]
+
+example : (∀ e ∈ [Ev.reqParsed true, .connect (.linked 1), .reqForwarded,
+    .backHead .empty true false, .backEof, .backHup], TameEv e) ∧
+    (run {} Stream.init [.reqParsed true, .connect (.linked 1), .reqForwarded,
+      .backHead .empty true false, .backEof, .backHup]).outcome = some (.relayed true .empty) := by
+  constructor
+  · intro e he; simp at he; rcases he with rfl | rfl | rfl | rfl | rfl | rfl <;> simp [TameEv]
+  · decide
+
+/-- a chunked response cut short is an abort / a 502, never complete -/
+example : (run {} Stream.init [.reqParsed true, .connect (.linked 1), .reqForwarded,
+    .backHead .chunked true false, .backEof, .backHup]).outcome = some (.default 502 false) := by
+  decide
+
+/-! ### the outcome is one of: relayed response, proxy answer, abort after start -/
+
+/-- FULL STATEMENT WANTED: every outcome is a relayed response, a proxy-generated
+    answer given before anything else went out, or an abort after the response started.
+    PROVED PART (one step, any event): this holds for the outcome produced from any live
+    state in which everything received from the backend has already been written to the
+    client and the response buffer is not in the error phase (`Settled`), provided the
+    backend's bytes do not stop parsing in the middle of a body. -/
+theorem C02_outcome_shape_partial (cfg : Cfg) (s : Stream) (e : Ev) (h : Settled s)
+    (hpe : e = .backParseError → s.phase = .initial) (o : Outcome)
+    (ho : (step cfg s e).outcome = some o) : Shape o :=
+  settled_shape cfg s e h hpe o ho
+
+/-- Excluded point 1 fails in the model (and in the code, finding F26): a partial
+    keep-alive response is still unwritten when the backend connection dies —
+    `forcefully_terminate_answer` drops it and the client is given nothing at all. -/
+theorem C02_outcome_shape_counterexample_silent_abort :
+    (run {} Stream.init [.reqParsed true, .connect (.linked 1), .reqForwarded,
+        .backHead .length false false, .backHup]).outcome = some (.abort false) ∧
+    ¬ Shape (.abort false) := by
+  constructor
+  · decide
+  · simp [Shape]
+
+/-- Excluded point 2 fails in the model (and in the code, finding F27): the head of a
+    chunked `Connection: close` response was written, the backend closes mid-body, the
+    buffer goes to the error phase and `end_stream_decision` answers 502 into the
+    response that had already started. -/
+theorem C02_outcome_shape_counterexample_default_after_start :
+    (run {} Stream.init [.reqParsed true, .connect (.linked 1), .reqForwarded,
+        .backHead .chunked true false, .frontFlush, .backEof, .backHup]).outcome
+      = some (.default 502 true) ∧
+    ¬ Shape (.default 502 true) := by
+  constructor
+  · decide
+  · simp [Shape]
+
+example : Settled (run {} Stream.init [.reqParsed true, .connect (.linked 1), .reqForwarded,
+    .backHead .length false false, .frontFlush]) := by
+  constructor <;> decide
+
+example : (step {} (run {} Stream.init [.reqParsed true, .connect (.linked 1), .reqForwarded,
+    .backHead .length false false, .frontFlush]) .backHup).outcome = some (.abort true) := by decide
 
 end Sozu.Answers
